@@ -108,44 +108,54 @@ End CloseTo.
 (* ================================================================================================
    E. clear_tensors machine
    ================================================================================================ *)
-Lemma crun_app s a b : crun s (a ++ b) = crun (crun s a) b.
+Lemma crun_app k s a b : crun k s (a ++ b) = crun k (crun k s a) b.
 Proof. unfold crun. apply fold_left_app. Qed.
 
-Lemma change_clears s o : is_change o = true ->
-  t_e (cstep s o) = None /\ t_g (cstep s o) = None /\ t_h (cstep s o) = None /\ t_hinv (cstep s o) = None /\
-  ver (cstep s o) = S (ver s).
-Proof. destruct o; cbn; intros H; try discriminate; repeat split. Qed.
+Lemma change_clears k s o : is_change o = true ->
+  t_e (cstep k s o) = None /\ t_g (cstep k s o) = None /\ t_h (cstep k s o) = None /\ t_hinv (cstep k s o) = None /\
+  ver (cstep k s o) = S (ver s).
+Proof. destruct k, o; cbn; intros H; try discriminate; repeat split. Qed.
 
 (* every stored tensor (the inverse Hessian included) was stored at the current coordinates *)
 Definition all_fresh (s : cstate) : Prop :=
   fresh_tag s (t_e s) /\ fresh_tag s (t_g s) /\ fresh_tag s (t_h s) /\ fresh_tag s (t_hinv s).
 
-Lemma cstep_fresh s o : all_fresh s -> all_fresh (cstep s o).
+Lemma all_fresh_cleared s : all_fresh (cleared s).
+Proof. unfold all_fresh. cbn. auto. Qed.
+Lemma all_fresh_changed s : all_fresh (changed s).
+Proof. unfold all_fresh. cbn. auto. Qed.
+Lemma all_fresh_raw_dic s : all_fresh (raw_iadd KDic s).
+Proof. apply all_fresh_changed. Qed.
+Lemma all_fresh_cadd k s : all_fresh (cadd k s).
+Proof. destruct k; unfold all_fresh; cbn; auto. Qed.
+
+Lemma cstep_fresh k s o : keeps_fresh k o = true -> all_fresh s -> all_fresh (cstep k s o).
 Proof.
-  intros [A [B [C D]]]. unfold all_fresh.
-  destruct o as [| | | | | | | |b|b|b|b| |].
-  - cbn. auto.
-  - cbn. auto.
-  - cbn. auto.
-  - cbn. repeat split; assumption.
-  - cbn. auto.
-  - cbn. auto.
-  - cbn. auto.
-  - cbn. repeat split; assumption.
-  - destruct b; cbn; (split; [first [reflexivity|exact I]|split; [exact B|split; [exact C|exact D]]]).
-  - destruct b; cbn; (split; [exact A|split; [first [reflexivity|exact I]|split; [exact C|exact D]]]).
-  - destruct b; cbn; (split; [exact A|split; [exact B|split; [first [reflexivity|exact I]|exact D]]]).
-  - destruct b; cbn; (split; [exact A|split; [exact B|split; [exact C|first [reflexivity|exact I]]]]).
-  - cbn [cstep]. destruct (t_h s) eqn:Eh; [cbn; rewrite ?Eh; repeat split; assumption|].
+  intros Hk [A [B [C D]]].
+  destruct o as [| | | | | | | | |b|b|b|b| |]; cbn [cstep].
+  - apply all_fresh_changed.
+  - apply all_fresh_cadd.
+  - apply all_fresh_cadd.
+  - repeat split; assumption.
+  - apply all_fresh_cadd.
+  - apply all_fresh_cadd.
+  - destruct k; [discriminate|apply all_fresh_raw_dic].
+  - apply all_fresh_cleared.
+  - repeat split; assumption.
+  - unfold all_fresh. destruct b; cbn; (split; [first [reflexivity|exact I]|split; [exact B|split; [exact C|exact D]]]).
+  - unfold all_fresh. destruct b; cbn; (split; [exact A|split; [first [reflexivity|exact I]|split; [exact C|exact D]]]).
+  - unfold all_fresh. destruct b; cbn; (split; [exact A|split; [exact B|split; [first [reflexivity|exact I]|exact D]]]).
+  - unfold all_fresh. destruct b; cbn; (split; [exact A|split; [exact B|split; [exact C|first [reflexivity|exact I]]]]).
+  - unfold all_fresh. destruct (t_h s) eqn:Eh; [cbn; rewrite ?Eh; repeat split; assumption|].
     destruct (t_hinv s) eqn:Ei; cbn; rewrite ?Eh, ?Ei; repeat split; try assumption; try exact I.
-  - cbn [cstep]. destruct (t_hinv s) eqn:Ei; [cbn; rewrite ?Ei; repeat split; assumption|].
+  - unfold all_fresh. destruct (t_hinv s) eqn:Ei; [cbn; rewrite ?Ei; repeat split; assumption|].
     destruct (t_h s) eqn:Eh; cbn; rewrite ?Eh, ?Ei; repeat split; try assumption; try exact I.
 Qed.
 
-Lemma crun_fresh ops : forall s, all_fresh s -> all_fresh (crun s ops).
+Lemma crun_fresh k ops : forall s, Forall (fun o => keeps_fresh k o = true) ops -> all_fresh s -> all_fresh (crun k s ops).
 Proof.
-  induction ops as [|o ops IH]; intros s Hs; [exact Hs|].
-  cbn [crun fold_left]. apply IH. apply cstep_fresh. exact Hs.
+  induction ops as [|o ops IH]; intros s Hf Hs; [exact Hs|].
+  inversion Hf; subst. cbn [crun fold_left]. apply IH; [assumption|]. apply cstep_fresh; assumption.
 Qed.
 
 (* ================================================================================================
